@@ -72,6 +72,35 @@ def mixed_cases(run: Run, n: int):
     return out
 
 
+def converted_twice_cases():
+    """Two nodes of ONE operator type that both get converted (ReduceMean-13 -> 18: the conversion introduces a new Constant value per
+    node), placed in sibling If branches / both in the main graph / one in the main graph and one in a body: the values the converter
+    introduces are definitions like any other - each name once in the whole model.  Judged by the direct oracle."""
+    import numpy as np
+    import spox.opset.ai.onnx.v17 as op17
+    import spox.opset.ai.onnx.v18 as op18
+
+    out = []
+    for where in ("sibling-branches", "both-in-main", "main-and-branch"):
+        c = B.argument(B.Tensor(np.bool_, ()))
+        x = B.argument(B.Tensor(np.float32, (2, 3)))
+
+        def conv(axis, x=x):
+            mean = op17.reduce_mean(x, axes=[axis], keepdims=1)                    # axes is an ATTRIBUTE until opset 17
+            return op18.reduce_max(mean, op18.const(np.array([1 - axis], np.int64)), keepdims=0)   # needs opset 18
+
+        if where == "sibling-branches":
+            (r,) = op18.if_(c, then_branch=lambda: [conv(0)], else_branch=lambda: [conv(1)])
+            outs = {"y": r}
+        elif where == "both-in-main":
+            outs = {"y": conv(0), "z": conv(1)}
+        else:
+            (r,) = op18.if_(c, then_branch=lambda: [conv(0)], else_branch=lambda: [op18.reduce_max(x, op18.const(np.array([0, 1], np.int64)), keepdims=0)])
+            outs = {"y": r, "z": conv(1)}
+        out.append(B.Case({"c": c, "x": x}, outs, False, {"names": "corner:converted-twice/" + where}))
+    return out
+
+
 def sibling_duplicate_case():
     """Corner: an inlined model whose two If branches each own a value of the same name (legal ONNX)."""
     import numpy as np
@@ -123,7 +152,7 @@ def run(run: Run) -> int:
         c.meta["names"] = "corner:functions"
         cases.append(c)
     cases.append(function_in_branch_and_main_case())
-    mixed = mixed_cases(run, n // 4)
+    mixed = mixed_cases(run, n // 4) + converted_twice_cases()
     for c in mixed:
         B.run_impl(c)
         c.coq = None
